@@ -19,8 +19,10 @@ package common
 //@   ensures module_name_is_the_snake_cased_namespace: result == formatting.ToSnakeCase(namespace)
 
 // ---- C08: reserved words. An identifier is escaped when its Python spelling (after the case conversion) is reserved.
+// `self` is not a keyword, but every field is a keyword parameter of the generated __init__(self, *, ...):
 //@ func FieldIdentifierName
 //@   property C08
+//@   ensures the_receiver_name_is_not_a_field_name: lastResult(formatting.ToSnakeCase) == "self" ==> result != "self"
 //@   ensures unreserved_spelling_is_kept: !(lastResult(formatting.ToSnakeCase) in reservedNames) ==> result == lastResult(formatting.ToSnakeCase)
 //@   ensures reserved_spelling_is_escaped: (lastResult(formatting.ToSnakeCase) in reservedNames) ==> result == lastResult(formatting.ToSnakeCase) + "_"
 //@ func ComputedFieldIdentifierName
